@@ -16,6 +16,7 @@ RULE = ("NetSpecs with continuous (tie-free) distributions over the full lattice
         "violating the proviso and counts them.  Non-trivial: >= 1 split with a customer in service at the pause and >= 10 records "
         "written after it; distinct by spec digest.")
 ASSUMPTIONS = ["both runs are built from scratch from the JSON spec (Ciw does not copy every stateful object per Simulation)"]
+TECHNIQUE = 'metamorphic property-based testing: split run vs unsplit run of the same generated (spec, seed), tie detector discards cases outside the proviso'
 WALL = {"quick": 150, "thorough": 540}
 
 ALLOWED = [f for f in common.FULL if f not in ("zero_service", "custom_dists")]
